@@ -128,6 +128,7 @@ def describe(ev):
 WHY_PROP = {
     'accept/reject differs from the grammar': 'C01',
     'the call panicked': 'C09',
+    'receiver holds a value that is not a value of its metric': 'C09',
     'parsed object differs from the vector text': 'C06',
     'Set accepts/refuses differently': 'C09',
     'Get accepts/refuses differently': 'C09',
